@@ -37,6 +37,7 @@ ASSUMPTIONS = [
     "engine B: weight vector concrete per query (all vectors in {0..W}^k, W=4 k<=3 quick; W=6 k<=4 thorough, plus the vectors used in the repository); population length and target size symbolic integers with 1 <= target <= population <= 10^5",
     "engine A: target k symbolic in [1,4], population m in [k,5]; population passed as list, Population object and one-shot iterator; combinator nestings from a fixed list of shapes",
     "precondition: at least one weight positive (an all-zero weight vector has no shares to compute)",
+    "ParameterlessPopulationInitializer (adaptive / parameterless GP) is driven by a wall-clock budget, not by the requested size: outside the claim like every time budget; AjustPopulationSizeStep deliberately changes the configured size between generations",
 ]
 
 
@@ -181,6 +182,20 @@ def _step(name, ctx):
     if name == "simplegp":  # geml.simplegp.SimpleGP.build_step shape
         e, n = ctx.cint(0, 2, "elitism"), ctx.cint(0, 2, "novelty")
         return ("simplegp", e, n)
+    if name == "randomize_parallel":
+        from geneticengine.algorithms.gp.parameterless import RandomizeParallelStep
+
+        return RandomizeParallelStep([ElitismStep(), NoveltyStep(), GenericMutationStep(1), GenericCrossoverStep(1)], weights=[ctx.cint(0, 2, "w") for _ in range(4)])
+    if name == "adaptive_mutation":
+        from geneticengine.algorithms.gp.adaptive import GenericAdaptiveMutationStep
+
+        return GenericAdaptiveMutationStep(ctx.pick([0.0, 1.0], "pm"))
+    if name == "adaptive_crossover":
+        from geneticengine.algorithms.gp.adaptive import GenericAdaptiveCrossoverStep
+
+        return GenericAdaptiveCrossoverStep(ctx.pick([0.0, 1.0], "pc"))
+    if name == "feedback_parallel":
+        return "feedback"
     if name == "nested":
         return ParallelStep([SequenceStep(TournamentSelection(2), ParallelStep([GenericMutationStep(1), NoveltyStep()], weights=[1, 1])), ElitismStep()], weights=[ctx.cint(1, 3, "w"), ctx.cint(0, 2, "w")])
     raise KeyError(name)
@@ -202,6 +217,12 @@ def h_step(ctx: Ctx, cfg):
         step = ParallelStep([ElitismStep(), NoveltyStep(), inner], [e, n, k - n - e])
         if e == 0 and n == 0 and k == 0:
             ctx.abandon("precondition")
+    if step == "feedback":  # adaptive GP's weight-feedback combinator needs a tracker that has seen a best individual
+        from geneticengine.algorithms.gp.adaptive import FeedbackParallelStep
+
+        tr0 = SingleObjectiveProgressTracker(problem, SequentialEvaluator())
+        tr0.evaluate([Individual(rep.create_genotype(None), rep)])
+        step = FeedbackParallelStep(tr0, [ElitismStep(), NoveltyStep(), GenericMutationStep(1)], weights=[ctx.cint(0, 2, "w") for _ in range(3)])
     if hasattr(step, "weights") and not any(step.weights):
         ctx.abandon("precondition:all-zero-weights")
     inds, pop = _pop(ctx, cfg, rep, problem, m)
@@ -292,9 +313,9 @@ def obligations(tier: str):
         obs.append(Ob(h, cfg, name=name, timeout=timeout * (8 if T else 1)))
 
     K, M = (4, 5) if T else (3, 4)
-    small = ("tournament", "lexicase", "nested", "simplegp", "parallel", "sequence", "default", "exclusive")
-    for st in ("elitism", "novelty", "identity", "tournament", "lexicase", "mutation", "crossover", "sequence", "sequence_elitism_last", "parallel", "exclusive", "default", "simplegp", "nested"):
-        forms = ("list", "iterator", "population") if st in ("elitism", "tournament", "parallel", "mutation", "crossover", "lexicase", "exclusive") or T else ("list",)
+    small = ("tournament", "lexicase", "nested", "simplegp", "parallel", "sequence", "default", "exclusive", "randomize_parallel", "feedback_parallel")
+    for st in ("elitism", "novelty", "identity", "tournament", "lexicase", "mutation", "crossover", "sequence", "sequence_elitism_last", "parallel", "exclusive", "default", "simplegp", "nested", "randomize_parallel", "adaptive_mutation", "adaptive_crossover", "feedback_parallel"):
+        forms = ("list", "iterator", "population") if st in ("elitism", "tournament", "parallel", "mutation", "crossover", "lexicase", "exclusive", "feedback_parallel") or T else ("list",)
         for form in forms:
             if st == "default" and not T:
                 continue  # tournament of 5 inside: 2^5 draw outcomes per winner; thorough tier only
